@@ -691,7 +691,11 @@ def backoff_facts(prog: Program) -> Tuple[Dict[str, Any], List[Problem]]:
                              f'{ci.name}.__call__ must yield exactly one delay per iteration of one loop bounded by self.attempts; found {rec}'))
         # shape: value = <base expr> + self.jitter(); capped by max_value iff it is not None
         if yields:
-            y = [x for frag in node_exprs(yields[0]) for x in walk_no_defs(frag) if isinstance(x, ast.Yield)][0]
+            ys_ = [x for yn in yields for frag in node_exprs(yn) for x in walk_no_defs(frag) if isinstance(x, ast.Yield)]
+            if not ys_ or len(yields) != 1:
+                facts[ci.name] = rec
+                continue            # BACKOFF-BOUND has reported the yield structure
+            y = ys_[0]
             val = y.value
             shape = _delay_shape(val, g, cfg, yields[0], prog)
             rec['shape'] = shape
